@@ -69,8 +69,20 @@ def _case(draw):
     return {"c": c, "maps": maps, "kind": kind, "witness": w}
 
 
+@st.composite
+def _named_case(draw):
+    """the same cases under unusual variable names (prefixes of one another, look-alikes of numbers and symbols, underscores)"""
+    case = draw(_case())
+    scheme = draw(st.sampled_from(["plain", "plain", "plain", "prefix", "symbols", "shapes"]))
+    if scheme != "plain":
+        m = gens.NAME_SCHEMES[scheme]
+        case = dict(case, c=gens.rename_contract(case["c"], m), maps=[[m.get(a, a), m.get(b, b)] for a, b in case["maps"]],
+                    witness={m.get(k, k): v for k, v in case["witness"].items()}, names=scheme)
+    return case
+
+
 def strategy(tier):
-    return _case()
+    return _named_case()
 
 
 def model_rename(d, s, t):
@@ -98,7 +110,7 @@ def model_rename(d, s, t):
 
 
 def run_case(case):
-    labels = ["kind:" + case["kind"]]
+    labels = ["kind:" + case["kind"], "names:" + case.get("names", "plain")]
     s0, con = env.call("construct", env.C, case["c"])
     if s0 != "ok":
         return {"viol": None, "nontrivial": False, "labels": labels + ["construction-refused"], "outcome": "construction-refused"}
